@@ -121,6 +121,16 @@ Proof.
   congruence.
 Qed.
 
+Lemma none_between h lo idx :
+  existsb (fun p : Z * pev => (lo <=? fst p) && (fst p <? idx)) h = false ->
+  forall j y, In (j, y) h -> lo <= j -> idx <= j.
+Proof.
+  intros H j y Hin Hlo. destruct (Z_lt_le_dec j idx) as [Hlt|]; [|assumption].
+  assert (Hex : existsb (fun p : Z * pev => (lo <=? fst p) && (fst p <? idx)) h = true).
+  { apply existsb_exists. exists (j, y); split; [exact Hin|]. cbn [fst]. lia. }
+  congruence.
+Qed.
+
 (* ------------------------------------------------------------------------------------------- *)
 (* structural invariant: where frames and holders can be                                         *)
 
@@ -189,7 +199,7 @@ Lemma struct_step s l s' : struct_ok s -> pstep s l = Some s' -> struct_ok s'.
 Proof.
   intros [Hrange Hnd Hfr Hst] Hstep.
   destruct s as [n st h lt o d c]. proj_simpl.
-  destruct l as [e start|e a busy|e next|parent k|e idx|e a r|e]; pstep_inv Hstep; bnorm.
+  destruct l as [e start|e a busy|e next|parent k|e idx|e idx|e a r|e]; pstep_inv Hstep; bnorm.
   - (* PTake time-out *)
     split; proj_simpl; auto.
     + constructor; [|constructor]. split; cbn [fph fidx]; [intros _|discriminate].
@@ -235,6 +245,19 @@ Proof.
       destruct (next <? n); cbn [fph fidx]; [intros _; lia|congruence].
   - (* PSpawn *)
     split; proj_simpl; auto.
+  - (* PSkipTo *)
+    inversion Hfr as [|? ? Hf Hfr']; subst.
+    assert (Hne : fph f <> MustOut) by congruence.
+    destruct Hf as [Hf1 _]. destruct (Hf1 Hne) as [Hfr0 Hfj].
+    match goal with H : existsb _ _ = false |- _ => pose proof (none_between _ _ _ H) as Hbet end.
+    assert (Hnew : forall j y, In (j, y) h -> idx <= j) by (intros j y Hin; eapply Hbet; eauto).
+    split; proj_simpl; auto.
+    + constructor; [|exact Hfr'].
+      destruct (idx <? n) eqn:En; bnorm; split; cbn [fph fidx]; try discriminate; try congruence.
+      * intros _. split; [lia|exact Hnew].
+      * intros _. destruct h as [|[j y] h']; [reflexivity|].
+        pose proof (Hnew j y (or_introl eq_refl)). specialize (Hrange j y (or_introl eq_refl)). lia.
+    + eapply stack_ok_head; [exact Hst|congruence|]. destruct (idx <? n); cbn [fidx]; lia.
   - (* PPush *)
     inversion Hfr as [|? ? Hf Hfr']; subst.
     assert (Hne : fph f <> MustOut) by congruence.
@@ -443,7 +466,7 @@ Lemma ord_step s l s' : struct_ok s -> ord_st s -> pstep s l = Some s' -> ord_st
 Proof.
   intros [Hrange Hnd Hfr Hst] Hord Hstep. unfold ord_st in *.
   destruct s as [n st h lt o d c]. proj_simpl.
-  destruct l as [e start|e a busy|e next|parent k|e idx|e a r|e]; pstep_inv Hstep; bnorm.
+  destruct l as [e start|e a busy|e next|parent k|e idx|e idx|e a r|e]; pstep_inv Hstep; bnorm.
   - (* PTake time-out *) cbn [map fev]. apply ord_push_unordered; [apply unordered_kind; right; lia|exact Hord].
   - (* PTake *) cbn [map fev]. apply (ord_take e h o lt); [lia|exact Hord].
   - (* PTake, no action *) cbn [map fev]. apply (ord_take e h o lt); [lia|exact Hord].
@@ -458,6 +481,11 @@ Proof.
       with (p :: fev f :: map fev l) by (destruct (next <? n); reflexivity).
     apply ord_propagate; auto. intros j y Hin. apply Hfj in Hin. lia.
   - (* PSpawn *) exact Hord.
+  - (* PSkipTo *)
+    replace (map fev ((if idx <? n then {| fev := fev f; fidx := idx; fph := BeforeDo |}
+                       else {| fev := fev f; fidx := idx - 1; fph := MustOut |}) :: l))
+      with (fev f :: map fev l) by (destruct (idx <? n); reflexivity).
+    exact Hord.
   - (* PPush *)
     replace (map fev ((if idx <? n then {| fev := e; fidx := idx; fph := BeforeDo |}
                        else {| fev := e; fidx := idx - 1; fph := MustOut |}) :: f :: l))
@@ -552,7 +580,7 @@ Lemma places_step s l s' e : pstep s l = Some s' -> ordered e = true ->
   cnt (places s') e = (cnt (taken1 l) e + cnt (places s) e)%nat.
 Proof.
   intros Hstep He. destruct s as [n st h lt o d c]. unfold places.
-  destruct l as [e0 start|e0 a busy|e0 next|parent k|e0 idx|e0 a r|e0]; pstep_inv Hstep; bnorm;
+  destruct l as [e0 start|e0 a busy|e0 next|parent k|e0 idx|e0 idx|e0 a r|e0]; pstep_inv Hstep; bnorm;
     cbn [taken1]; rewrite ?count_occ_app; cbn [map fev].
   - (* PTake time-out *)
     assert (Hu : ordered e0 = false) by (apply unordered_kind; right; assumption).
@@ -567,6 +595,10 @@ Proof.
                       else {| fev := p; fidx := next - 1; fph := MustOut |}) = p) by (destruct (next <? n); reflexivity).
     rewrite Hf. rewrite (cnt_cons p (fev f :: map fev l)). cbn [count_occ]. lia.
   - (* PSpawn *) cbn [count_occ]. lia.
+  - (* PSkipTo *)
+    assert (Hf : fev (if idx <? n then {| fev := fev f; fidx := idx; fph := BeforeDo |}
+                      else {| fev := fev f; fidx := idx - 1; fph := MustOut |}) = fev f) by (destruct (idx <? n); reflexivity).
+    rewrite Hf. cbn [count_occ]. lia.
   - (* PPush *)
     assert (Hf : fev (if idx <? n then {| fev := e0; fidx := idx; fph := BeforeDo |}
                       else {| fev := e0; fidx := idx - 1; fph := MustOut |}) = e0) by (destruct (idx <? n); reflexivity).
@@ -610,7 +642,7 @@ Lemma taken_step s l s' : pstep s l = Some s' ->
   lasttaken s <= lasttaken s' /\ Forall (fun e => lasttaken s < pseq e <= lasttaken s') (taken1 l).
 Proof.
   intros Hstep. destruct s as [n st h lt o d c].
-  destruct l as [e0 start|e0 a busy|e0 next|parent k|e0 idx|e0 a r|e0]; pstep_inv Hstep; bnorm;
+  destruct l as [e0 start|e0 a busy|e0 next|parent k|e0 idx|e0 idx|e0 a r|e0]; pstep_inv Hstep; bnorm;
     cbn [taken1]; try (split; [lia|constructor]).
   - rewrite (unordered_kind e0) by (right; assumption). split; [lia|constructor].
   - split; [lia|]. destruct (ordered e0); repeat constructor; lia.
@@ -824,4 +856,64 @@ Proof.
   destruct (pstep s (PDo (ev 0 3) 1 false)) as [s'|] eqn:E2.
   - exists s'. auto.
   - exfalso. vm_compute in E. inversion E; subst s. vm_compute in E2. discriminate.
+Qed.
+
+(* ------------------------------------------------------------------------------------------- *)
+(* the model without P6 (PSkipTo without the no-holder guard: a busy action's match conditions     *)
+(* would be consulted and a non-matching event would bypass the holder): ordering fails           *)
+
+Definition pstep_noP6 (s : pst) (l : plabel) : option pst :=
+  match l with
+  | PSkipTo e idx =>
+      if pcrashed s then None else
+      match stack s with
+      | f :: r =>
+          match fph f with
+          | BeforeDo =>
+              if pev_eqb e (fev f) && (fidx f <? idx) && (idx <=? nact s) && negb (pkind e =? 3)
+              then Some (set_stack s ((if idx <? nact s then {| fev := fev f; fidx := idx; fph := BeforeDo |}
+                                       else {| fev := fev f; fidx := idx - 1; fph := MustOut |}) :: r))
+              else None
+          | _ => None
+          end
+      | [] => None
+      end
+  | _ => pstep s l
+  end.
+
+Fixpoint prun_noP6 (s : pst) (ls : list plabel) : option pst :=
+  match ls with
+  | [] => Some s
+  | l :: r => match pstep_noP6 s l with Some s' => prun_noP6 s' r | None => None end
+  end.
+
+Lemma pstep_noP6_weaker s l s' : pstep s l = Some s' -> pstep_noP6 s l = Some s'.
+Proof.
+  destruct l; cbn [pstep_noP6]; auto. intros H. destruct s as [n st h lt o d c]. pstep_inv H.
+  match goal with H : _ && negb (existsb _ _) = true |- _ => apply andb_true_iff in H; destruct H as [H _]; rewrite H end.
+  reflexivity.
+Qed.
+
+(* 2 actions; action 1 holds e1; e2 matches neither action and skips both, the holder included:
+   it is out before e1, which the next event e3 flushes *)
+Definition w_skip_holder : list plabel :=
+  [PTake (ev 1 0) 0; PDo (ev 1 0) 0 false; PResult (ev 1 0) 0 RPass; PDo (ev 1 0) 1 false; PResult (ev 1 0) 1 RHold;
+   PTake (ev 2 0) 0; PSkipTo (ev 2 0) 2; POut (ev 2 0);
+   PTake (ev 3 0) 0; PDo (ev 3 0) 0 false; PResult (ev 3 0) 0 RPass; PDo (ev 3 0) 1 true; PPropagate (ev 1 0) 2; POut (ev 1 0)].
+
+Lemma outs_increasing_noP6_refuted :
+  exists n ls s, prun_noP6 (pinit n) ls = Some s /\ ~ increasing (map pseq (filter ordered (rev (outs s)))).
+Proof.
+  exists 2, w_skip_holder.
+  destruct (prun_noP6 (pinit 2) w_skip_holder) as [s|] eqn:E; [|vm_compute in E; discriminate].
+  exists s. split; [reflexivity|]. vm_compute in E. inversion E; subst s. cbn. exact not_increasing_21.
+Qed.
+
+(* ... and an event leaves the processor while an action holds one *)
+Lemma held_nil_after_out_noP6_refuted :
+  exists n ls e s, prun_noP6 (pinit n) (ls ++ [POut e]) = Some s /\ stack s = [] /\ held s <> [].
+Proof.
+  exists 2, (firstn 7 w_skip_holder), (ev 2 0).
+  destruct (prun_noP6 (pinit 2) (firstn 7 w_skip_holder ++ [POut (ev 2 0)])) as [s|] eqn:E; [|vm_compute in E; discriminate].
+  exists s. split; [reflexivity|]. vm_compute in E. inversion E; subst s. cbn. split; [reflexivity|discriminate].
 Qed.
